@@ -299,3 +299,14 @@ Proof.
   - rewrite firstn_skipn. reflexivity.
   - rewrite firstn_length. lia.
 Qed.
+
+(* ---------- a reveal LIST denotes a set ---------- *)
+Lemma mask_of_set_lemma : forall m R1 R2, (forall i, In i R1 <-> In i R2) -> mask_of m R1 = mask_of m R2.
+Proof.
+  intros m R1 R2 H. unfold mask_of. apply map_ext. intros i. unfold mem_nat.
+  destruct (existsb (Nat.eqb i) R1) eqn:E1; destruct (existsb (Nat.eqb i) R2) eqn:E2; auto.
+  - apply existsb_exists in E1. destruct E1 as [x [Hx Hi]]. apply Nat.eqb_eq in Hi. subst x.
+    apply H in Hx. assert (existsb (Nat.eqb i) R2 = true) by (apply existsb_exists; exists i; split; [auto|apply Nat.eqb_refl]). congruence.
+  - apply existsb_exists in E2. destruct E2 as [x [Hx Hi]]. apply Nat.eqb_eq in Hi. subst x.
+    apply H in Hx. assert (existsb (Nat.eqb i) R1 = true) by (apply existsb_exists; exists i; split; [auto|apply Nat.eqb_refl]). congruence.
+Qed.
